@@ -9,7 +9,7 @@ INFO = dict(
             'fiber_manager_do_maintenance'],
  stubs=['contract kernel (see C03)', 'abstract mutex: fiber_mutex_lock/trylock/unlock/unlock_internal are replaced by the contract that C03 establishes for them (atomic test-and-set, a blocked locker parks); fiber_cond.c itself and the atomic unlock-and-wait path through fiber_manager_wait_in_mpsc_queue_and_unlock / do_maintenance are the real code'],
  assumptions=['assume-guarantee: the runtime contract of C01/C02 holds for yield/schedule', 'x86-TSO mapping of atomics; -O1 IR of clang-14'],
- bounds='1-2 waiters, one signaller issuing 1-2 signals or one broadcast; counting mode (no predicate loop) and predicate mode; spin bound 1; all interleavings (SC)',
+ bounds='1-2 waiters, one signaller issuing 1-2 signals or one broadcast, with the mutex held or (predicate mode) after releasing it; counting mode (no predicate loop) and predicate mode; spin bound 1; all interleavings (SC)',
  outside='more waiters/signals, re-waiting more than once, several condition variables on one mutex')
 
 
@@ -19,6 +19,8 @@ def plan(tier, ctx):
     j += fvm.config('C05', 'cond_1w_signal', 'cond.c', 2, 4, 'sc', srcs=src, defines=['NW=1', 'NSIG=1'], spec=fvm.kspec_amutex(2), bounds='1 waiter, 1 signal (counting)', timeout=1200)
     j += fvm.config('C05', 'cond_1w_pred', 'cond.c', 2, 4, 'sc', srcs=src, defines=['NW=1', 'NSIG=1', 'PREDICATE'], spec=fvm.kspec_amutex(2), bounds='1 waiter with predicate loop, 1 signal', timeout=1200)
     j += fvm.config('C05', 'cond_1w_bcast', 'cond.c', 2, 4, 'sc', srcs=src, defines=['NW=1', 'NSIG=1', 'BROADCAST'], spec=fvm.kspec_amutex(2), bounds='1 waiter, 1 broadcast', timeout=1200)
+    j += fvm.config('C05', 'cond_1w_pred_outside', 'cond.c', 2, 4, 'sc', srcs=src, defines=['NW=1', 'NSIG=1', 'PREDICATE', 'SIGNAL_OUTSIDE'], spec=fvm.kspec_amutex(2), bounds='1 waiter with predicate loop; predicate set under the mutex, signal sent after unlocking', timeout=1200)
+    j += fvm.config('C05', 'cond_1w_pred_outside2', 'cond.c', 2, 4, 'sc', srcs=src, defines=['NW=1', 'NSIG=2', 'PREDICATE', 'SIGNAL_OUTSIDE'], spec=fvm.kspec_amutex(2, spin=0), bounds='as before, preceded by one blind signal without the mutex; spin bound 0', timeout=2400, required=False)
     if tier == 'thorough':
         j += fvm.config('C05', 'cond_2w_bcast', 'cond.c', 3, 4, 'sc', srcs=src, defines=['NW=2', 'NSIG=1', 'BROADCAST'], spec=fvm.kspec_amutex(3), bounds='2 waiters, 1 broadcast', timeout=3000, required=False, mem_gb=24)
         j += fvm.config('C05', 'cond_2w_signal', 'cond.c', 3, 4, 'sc', srcs=src, defines=['NW=2', 'NSIG=1'], spec=fvm.kspec_amutex(3), bounds='2 waiters, 1 signal', timeout=3000, required=False, mem_gb=24)
